@@ -89,6 +89,25 @@ def _is_zeroish(v):
     return dim_collapse(v.dim) == ANY or (v.is_number_const() and v.const == 0)
 
 
+def _param_default(v, ev):
+    """numeric default of the raw parameter `v` is (tolerance arguments are rarely overridden by callers)."""
+    fn = getattr(ev, "func", None)
+    if v is None or fn is None or "raw-param" not in v.tags or len(v.pdeps) != 1:
+        return None
+    name = next(iter(v.pdeps))
+    a = fn.node.args
+    pos = list(a.posonlyargs) + list(a.args)
+    defaults = [None] * (len(pos) - len(a.defaults)) + list(a.defaults)
+    for p, d in list(zip(pos, defaults)) + list(zip(a.kwonlyargs, a.kw_defaults)):
+        if p.arg == name and d is not None:
+            try:
+                c = ast.literal_eval(d)
+            except Exception:
+                return None
+            return c if isinstance(c, (int, float)) and not isinstance(c, bool) else None
+    return None
+
+
 def classify_cmp(ev):
     left, right = ev.left, ev.right
     form = ev.form
@@ -118,7 +137,7 @@ def classify_cmp(ev):
     # isclose / allclose
     atol = kw.get("atol")
     rtol = kw.get("rtol")
-    atol_c = atol.const if (atol is not None and atol.is_number_const()) else (1e-8 if atol is None else None)
+    atol_c = atol.const if (atol is not None and atol.is_number_const()) else (1e-8 if atol is None else _param_default(atol, ev))
     kl, kr = _maxdeg(left.dim), _maxdeg(right.dim)
     lz, rz = _is_zeroish(left), _is_zeroish(right)
     if lz or rz:
@@ -142,6 +161,9 @@ def classify_cmp(ev):
     if kl is None or kr is None:
         return ("unknown", None, atol_c)
     if kl == kr:
+        if kl != 0 and atol is not None and atol_c is not None and atol_c > 0 and in_band(kl, atol_c):
+            # an explicit absolute tolerance next to the relative one: it decides at the small end of the supported scales
+            return ("in-band", kl, atol_c)
         return ("relative" if kl != 0 else "dimensionless", kl, atol_c)
     return ("unknown", kl, atol_c)
 
